@@ -23,3 +23,10 @@ package benchstat
 //@   ensures stats.MannWhitneyUTest_1(old.RValues, new.RValues, stats.LocationDiffers) == nil ==>
 //@             err == nil && bits(pval, stats.MannWhitneyUTest_0(old.RValues, new.RValues, stats.LocationDiffers).P)
 //@   ensures stats.MannWhitneyUTest_1(old.RValues, new.RValues, stats.LocationDiffers) != nil ==> err != nil && pval == 0.0 - 1.0
+
+//@ func TTest(old, new *Metrics) (pval float64, err error)
+//@   props C17
+//@   requires old != nil && new != nil
+//@   ensures stats.TwoSampleWelchTTest_1(iface(mkstruct(stats.Sample, old.RValues, nil, false)), iface(mkstruct(stats.Sample, new.RValues, nil, false)), stats.LocationDiffers) == nil ==>
+//@             err == nil && bits(pval, stats.TwoSampleWelchTTest_0(iface(mkstruct(stats.Sample, old.RValues, nil, false)), iface(mkstruct(stats.Sample, new.RValues, nil, false)), stats.LocationDiffers).P)
+//@   ensures stats.TwoSampleWelchTTest_1(iface(mkstruct(stats.Sample, old.RValues, nil, false)), iface(mkstruct(stats.Sample, new.RValues, nil, false)), stats.LocationDiffers) != nil ==> err != nil && pval == 0.0 - 1.0
